@@ -7,19 +7,19 @@ VERIF = os.path.dirname(os.path.dirname(os.path.abspath(__file__)))
 CLAIMED = {
  # id: (level, text, note, technique, design_ref)
  "C05": ("exploration",
-   "Seeded search over %define/use/include histories (thorough: all 3.19 million flat histories of <=4 steps enumerated, up to 6 steps sampled; quick: <=2 steps enumerated), each rendered into 1..3 resources on the simulated transport and loaded three times against one schema object; outcome compared step by step with a 40-line reference model of the namespace. Evidence over the sampled histories, not proof.",
+   "Seeded search over %define/use/include histories (thorough: all 3.19 million flat histories of <=4 steps enumerated, up to 6 steps sampled; quick: <=2 steps enumerated), each rendered into 1..3 resources on the simulated transport and loaded three times against one schema object; outcome compared step by step with a reference model of the namespace; entry by URL, file object, reused ConfigLoader or with an override; environment variables, rewritten fragments and transport faults on include targets. Evidence over the sampled histories, not proof.",
    "Trusts the reference model in zcsim/props/c05.py and the simulated transport; real ZConfig parser/loader/substitution.",
    "deterministic simulation: seeded history search against an executable reference model, transport faults on include targets", "4/C05"),
  "C06": ("exploration",
-   "Seeded search over (schema, text, cut layout) scenarios on the simulated transport with decoy resources at every wrongly-resolved URL; differential oracle inlined-vs-cut plus recorded open history; torn-cut and missing-fragment faults must reject.",
+   "Seeded search over (schema, text, cut layout) scenarios on the simulated transport with decoy resources at every wrongly-resolved URL; differential oracle inlined-vs-cut plus recorded open history; torn-cut (refused by the fragment's own parser) and missing-fragment faults must reject; variants for redefinition across boundaries, includes through a %define, %import inside fragments, deep chains, big multi-byte fragments, odd first characters; real-file stratum with cwd decoys, symlinks and a top resource that exists only in memory.",
    "Trusts the cutter (balanced ranges) and stdlib urljoin for computing expected fragment URLs.",
    "deterministic simulation: multi-resource I/O on a simulated transport with decoys, differential oracle + I/O history check, torn/lost fragment faults", "4/C06"),
  "C07": ("exploration",
-   "Seeded stored-content corruption (truncate, drop/dup/swap line, flip to every metacharacter, token insert/delete, a line copied into another resource, a name %define-d in two resources), all 512 include graphs over three files x 4 variants enumerated with a textual-inclusion oracle, missing fragments, open errors and corrupted override specifiers against real loaders (memory and real-file backends, real http.client); oracle: only ConfigurationError-family exceptions escape; validator.main status/stderr agree with direct loads.",
+   "Seeded stored-content corruption (truncate, drop/dup/swap line, flip to every metacharacter, token insert/delete, a line copied into another resource, a name %define-d in two resources), all 512 include graphs over three files x 4 variants enumerated with a textual-inclusion oracle, missing fragments, open errors and corrupted override specifiers against real loaders (memory and real-file backends, real http.client); read failures after a successful open, very long lines, application datatypes rejecting with every shape of ValueError; oracle: only ConfigurationError-family exceptions escape; validator.main status/stderr agree with direct loads.",
    "Schemas restricted to datatypes rejecting with ValueError; transport errors after a successful open and file objects that do not yield text are out of scope of the statement.",
    "deterministic simulation: seeded storage-corruption and open-fault injection, exception-class oracle", "4/C07"),
  "C08": ("fault_enumeration",
-   "For every sampled scenario (schema, accepted text, 1..4 resources, entry mode) every applicable (resource, position, typed fault kind) injection is executed and the raised error must carry the culprit's line and URL. Exhaustive over the failure points of each scenario, sampled over scenarios.",
+   "For every sampled scenario (schema, accepted text, 1..4 resources, entry mode) every applicable (resource, position, typed fault kind) injection is executed and the raised error must carry the culprit's line and URL. Entry by URL, file object (with / without URL), reused loader (every injection follows earlier rejected loads) or with an override. Exhaustive over the failure points of each scenario, sampled over scenarios.",
    "Culprit line predicted by zcsim/textfaults.py; accepted injections are generator waste, not violations.",
    "deterministic simulation: exhaustive single-fault enumeration per scenario over simulated resources, fault-localisation oracle", "4/C08"),
  "C12": ("exploration",
@@ -27,19 +27,19 @@ CLAIMED = {
    "Trusts the vocabulary model in zcsim/props/c12.py; component packages are simulated (sys.meta_path finder).",
    "deterministic simulation: seeded load histories with import-system faults against a reference model of the admissible set", "4/C12"),
  "C13": ("exploration",
-   "Seeded histories of up to 8 operations (valid/invalid loads failing at every stage, %import, overrides, hostile mutation of returned data, schema re-load) against one schema object, compared step by step with fresh schema replicas and with a structural schema digest.",
+   "Seeded histories of up to 8 operations (valid/invalid loads failing at every stage, %import, overrides, hostile mutation of returned data, schema re-load) against one schema object, compared step by step (outcome and error text) with fresh schema replicas - from the text or through loadSchema(url) - and with a structural schema digest; a second stratum runs histories of logging configurations against the shipped logger component.",
    "Digest uses the public schema description API; callbacks are stubs.",
    "deterministic simulation: history-vs-fresh-replica differential (linearizability-style) with fault injection at every load stage", "4/C13"),
  "C18": ("exploration",
-   "Seeded real-file-system universes (scratch dir, <=3 levels, URL-neutral odd file names, decoys in cwd and parents), chdir as an operation, four entry points for schema and configuration compared with each other and with the in-memory expectation; fragment references must be rejected; exhaustive short-string invariants for url helpers.",
+   "Seeded real-file-system universes (scratch dir, <=3 levels, URL-neutral odd file names, decoys in cwd and parents), chdir as an operation, four entry points for schema and configuration compared with each other and with the in-memory expectation; one reused loader across rewritten files, a failed load and a chdir; fragment references must be rejected; exhaustive short-string invariants for url helpers.",
    "Real file system and stock urllib FileHandler; the url-helper sub-clause is input enumeration (stated in DESIGN).",
    "deterministic simulation: seeded file-system/cwd environments with decoys, entry-point differential + open-history oracle", "4/C18"),
  "C19": ("fault_enumeration",
-   "For every sampled schema-load or config-load scenario (<=5 resources over file:, http:, package: URLs) a reconnaissance run records every seam call and then one run per failure point (each open, stream read, get_data, each readline/read call of each resource incl. EOF, each conversion / section-datatype / key-type call, typed text faults; for a third of the points a second faulty load follows on the same loader) checks closure of every Resource and stream, close-before-parse ordering, and an unchanged fault-free rerun. Exhaustive over failure points per scenario, sampled over scenarios.",
+   "For every sampled schema-load or config-load scenario (<=5 resources over file:, http:, package: URLs) a reconnaissance run records every seam call and then one run per failure point (each open, stream read, get_data, each readline/read call of each resource incl. EOF, each conversion / section-datatype / key-type call, typed text faults; for a third of the points a second faulty load follows on the same loader) checks closure of every Resource, transport stream, simulated connection (observed when the exception reaches the caller) and of the stream handed to load*File, close-before-parse ordering, an unchanged fault-free rerun and an unchanged use-without-import probe; failure points include interruptions that are BaseException. Exhaustive over failure points per scenario, sampled over scenarios.",
    "Asynchronous exceptions between arbitrary bytecodes are not modelled (not stated by the property).",
    "deterministic simulation: crash-point enumeration from a reconnaissance run, resource-closure and post-failure-rerun oracles", "4/C19"),
  "C20": ("exploration",
-   "Seeded logger configurations and histories of {call factory, reopen, close all, drop handler reference, gc, emit, advance clock} under a simulated clock, disabled GC and a scratch log directory; reference model of levels, handler classes, formats and of the set of live reopenable handlers.",
+   "Seeded logger configurations and histories of {call factory, reopen, close all, drop / retire handlers, gc, emit, advance clock, external rotation / re-pointed symlink, closeFiles with ENOSPC, reopenFiles with an unusable path} under a simulated clock, disabled GC and a scratch log directory; reference model of levels, handler classes, formats and of the set of live reopenable handlers.",
    "Real logging/logging.handlers; syslog/http/smtp handlers are constructed but never emit.",
    "deterministic simulation: seeded operation histories with simulated clock and controlled finalisation against a reference model", "4/C20"),
 }
